@@ -96,9 +96,18 @@ func must(err error) {
 	}
 }
 
+// policy n of the model is directory p<n+polOffset>: the names cross a digit boundary (p9, p10) early, where
+// string order and numeric order of the names differ
+const polOffset = 7
+
+func polName(n int) string { return "p" + strconv.Itoa(n+polOffset) }
+
 func polNum(s string) int {
+	if s == "" {
+		return 0
+	}
 	n, _ := strconv.Atoi(strings.TrimPrefix(s, "p"))
-	return n
+	return n - polOffset
 }
 
 func relTime(t int64) int64 {
@@ -144,7 +153,7 @@ func runOne(b *behaviour, dir, missing string, enc *json.Encoder) {
 	newPolicy := func(c string) {
 		npol++
 		polC[npol] = c
-		pd := filepath.Join(dir, "policies", "p"+strconv.Itoa(npol))
+		pd := filepath.Join(dir, "policies", polName(npol))
 		files, ok := contents[c]
 		if !ok {
 			must(fmt.Errorf("unknown content %q", c))
@@ -163,7 +172,7 @@ func runOne(b *behaviour, dir, missing string, enc *json.Encoder) {
 		}
 		cur := filepath.Join(dir, "policies", "current")
 		os.Remove(cur)
-		must(os.Symlink("p"+strconv.Itoa(npol), cur))
+		must(os.Symlink(polName(npol), cur))
 	}
 	statusFile := filepath.Join(dir, "status", "router")
 	step := 0
@@ -214,7 +223,7 @@ func runOne(b *behaviour, dir, missing string, enc *json.Encoder) {
 	for _, ev := range b.Evs {
 		clock++
 		setTime()
-		cur := "p" + strconv.Itoa(npol)
+		cur := polName(npol)
 		changed := false
 		switch ev.Ev {
 		case "NewPolicy":
@@ -233,7 +242,7 @@ func runOne(b *behaviour, dir, missing string, enc *json.Encoder) {
 		case "Drift":
 			dev = ev.C
 		case "Compress":
-			pd := filepath.Join(dir, "policies", "p"+strconv.Itoa(ev.P))
+			pd := filepath.Join(dir, "policies", polName(ev.P))
 			var files []string
 			filepath.Walk(pd, func(p string, fi os.FileInfo, err error) error {
 				if err == nil && !fi.IsDir() && filepath.Dir(p) != pd {
@@ -248,7 +257,7 @@ func runOne(b *behaviour, dir, missing string, enc *json.Encoder) {
 				}
 			}
 		case "Remove":
-			must(os.RemoveAll(filepath.Join(dir, "policies", "p"+strconv.Itoa(ev.P))))
+			must(os.RemoveAll(filepath.Join(dir, "policies", polName(ev.P))))
 		case "Corrupt":
 			os.MkdirAll(filepath.Dir(statusFile), 0755)
 			data, _ := os.ReadFile(statusFile)
